@@ -26,11 +26,22 @@ def nonzero_model(nm, args, t, path):
     if re.search(r'^std::num::NonZero::<T>::new$', nm) and args:
         x = args[0]
         for term, c in path.conds:
-            if term[0] == 'bin' and term[1] in ('Ne', 'Eq') and term[2] == x and term[3][0] == 'const' and term[3][1] == 0:
+            if term[0] != 'bin' or len(term) < 4:
+                continue
+            # tests of an unsigned value against zero in any spelling: x != 0, x > 0, 0 < x, x >= 1, 1 <= x (true <=> non-zero);
+            # x == 0, x < 1, x <= 0, 0 >= x, 1 > x (true <=> zero)
+            op, a_, b_ = term[1], term[2], term[3]
+            k_ = None
+            if a_ == x and b_[0] == 'const':
+                k_ = (op, b_[1])
+            elif b_ == x and a_[0] == 'const':
+                k_ = ({'Lt': 'Gt', 'Gt': 'Lt', 'Le': 'Ge', 'Ge': 'Le'}.get(op, op), a_[1])
+            nz_when_true = {('Ne', 0): True, ('Gt', 0): True, ('Ge', 1): True, ('Eq', 0): False, ('Lt', 1): False, ('Le', 0): False}.get(k_) if k_ else None
+            if nz_when_true is not None:
                 truth = 1 if (c[0] == 'ne' and 0 in c[1]) or c == ('eq', 1) else (0 if c == ('eq', 0) else None)
                 if truth is None:
                     continue
-                nonzero = (truth == 1) == (term[1] == 'Ne')
+                nonzero = (truth == 1) == nz_when_true
                 if nonzero:
                     return ('agg', 'std::option::Option', 'Some', {'0': x})
                 return ('agg', 'std::option::Option', 'None', {})
